@@ -294,12 +294,19 @@ void error (const char *fmt, ...) {
 
   va_start (args, fmt);
   len = vsnprintf (msg, sizeof(msg)-1, fmt, args);
+  va_end (args);
+  if (len < 0)
+    {
+      msg[0] = 0;
+      len = 0;
+    }
+  else if (len > (int)sizeof(msg) - 2)
+    len = (int)sizeof(msg) - 2; /* truncated: vsnprintf() returns the length the full text would have had */
   if (len > 0 && msg[len-1] != '\n')
     {
       msg[len] = '\n';
       msg[len+1] = 0;
     }
-  va_end (args);
 
   error_handler (msg);
 }
